@@ -40,7 +40,8 @@ Definition res_match (m o : call_res) : bool :=
   | CSent, CSent => true
   | CPanic, CPanic => true
   | CLost, CLost => true
-  | CErr c1 m1 sys, CErr c2 m2 _ => (c1 =? c2)%Z && (sys || bytes_eqb m1 m2)
+  (* a framework-made text ([sys_msg], whichever side made it: the dispatcher's decode error travels in SResultDesc) is not compared *)
+  | CErr c1 m1 sys, CErr c2 m2 _ => (c1 =? c2)%Z && (sys || bytes_eqb m1 sys_msg || bytes_eqb m1 m2)
   | _, _ => false
   end.
 
